@@ -23,9 +23,10 @@ META = {
                   "/repo by an exhaustive comparison inside coqc (order 0..4, numel<=64 (quick 32), thr in 1..9 and 1024, merge on/off: "
                   "merged dims, block count, shape/storage offset/strides of every parameter and gradient block, storage identity, and "
                   "the effect of update_params) plus random large shapes for the two utilities. "
-                  "NOT a Coq theorem here: `blocked_eq_presplit` (optimising a tensor under a blocking = optimising its blocks as "
-                  "separate parameters) - it needs the optimizer model of C01 and is added by the coordinator; in this check that clause "
-                  "is only TESTED implementation-vs-implementation (real DistributedShampoo runs, tolerance 1e-12).",
+                  "Second clause: `C05_blocked_eq_presplit` - in the structural model of step() (Masks.v, generic in the per-block "
+                  "computation, instantiated with Optimizer.block_step in OptimizerMasks.v) two layouts whose histories present the same "
+                  "per-block gradients give the same block values, states and step counter over any history; on the implementation the "
+                  "clause is additionally TESTED blocked-vs-pre-split (real DistributedShampoo runs, bit-exact for same-strided views).",
     "level_note": "Trusted: Coq kernel+vm_compute; the hand-written model (checked against the code only on the enumerated/random "
                   "inputs); torch view/split/detach/storage_offset/stride/_foreach_add_ semantics as observed (the update test ties "
                   "view_offsets to what an in-place add on the views really touches). The invariance part is a test, not a proof.",
@@ -427,7 +428,7 @@ def run(ck: Check) -> None:
             "contiguous_clones_eps>=1e-8": {"bit_exact": exact2, "max_abs_diff": max2},
             "failing": len(inv_bad), "exceptions": len(inv_exc)},
     })
-    ck.notes.append("blocked_eq_presplit is not a Coq theorem in this check (needs the C01 optimizer model); the clause is covered by the implementation-vs-implementation runs only")
+    ck.notes.append("blocked_eq_presplit: proved on the structural model (props/C05.v, via Masks.v + OptimizerMasks.v); the implementation-vs-implementation runs test it on the real optimizer")
     ck.assumptions += ["torch view/split/detach/storage_offset/stride behave as observed (blocks identified by storage pointer + offset + sizes + strides)",
                        "torch._foreach_add_ on views writes through to the parameter (exercised by the update test on every enumerated case)"]
 
